@@ -779,17 +779,34 @@ int parity_sync(struct snapraid_parity_handle* handle)
 int parity_truncate(struct snapraid_parity_handle* handle)
 {
 	unsigned s;
+	unsigned last;
 	int f_ret = 0;
+
+	/* find the split where the valid parity ends */
+	last = 0;
+	for (s = 0; s < handle->split_mac; ++s) {
+		if (handle->split_map[s].valid_size != 0)
+			last = s;
+	}
 
 	for (s = 0; s < handle->split_mac; ++s) {
 		struct snapraid_split_handle* split = &handle->split_map[s];
+		data_off_t size;
 		int ret;
 
 		/* truncate any data that we know it's not valid */
-		ret = ftruncate(split->f, split->valid_size);
+		size = split->valid_size;
+
+		/* but only after the end of the valid parity, like with a single file. */
+		/* The previous splits are in the middle of the parity, and they must keep */
+		/* their size, also if they end with blocks not used by any file, and never written */
+		if (s < last)
+			size = split->size;
+
+		ret = ftruncate(split->f, size);
 		if (ret != 0) {
 			/* LCOV_EXCL_START */
-			log_fatal("Error truncating the parity file '%s' to size %" PRIu64 ". %s.\n", split->path, split->valid_size, strerror(errno));
+			log_fatal("Error truncating the parity file '%s' to size %" PRIu64 ". %s.\n", split->path, size, strerror(errno));
 			f_ret = -1;
 			/* LCOV_EXCL_STOP */
 
